@@ -80,7 +80,8 @@ def _kind_of(dt):
     if isinstance(dt, DType):
         return dt.kind
     if isinstance(dt, TypeMarker):
-        return {"float": "float", "int": "int", "bool": "bool", "object": "object", "complex": "complex"}.get(dt.name, dt.name)
+        return {"float": "float", "float64": "float", "float32": "float", "int": "int", "int64": "int", "int32": "int", "intp": "int", "bool": "bool", "bool_": "bool",
+                "object": "object", "complex": "complex"}.get(dt.name, dt.name)
     if isinstance(dt, str):
         if dt.startswith(("float", "f", "d")):
             return "float"
@@ -222,17 +223,37 @@ def array_setitem(obj, idx, val):
         obj[idx] = val
         return
     # native int / bool storage
-    if isinstance(val, (Fraction, Poly)):
-        v = P(val).const_value()
-        if v.denominator != 1:
-            raise Undecided("non-integer stored into an integer array")
-        val = int(v)
-    elif isinstance(val, np.ndarray) and val.dtype == object:
-        val = to_int_array(val)
-    elif isinstance(val, (list, tuple)):
-        val = array(val)
-        if val.dtype == object:
-            val = to_int_array(val)
+    # numpy casts with C semantics on item assignment: a non-integer constant is truncated towards zero (silently); a symbolic value
+    # has no integer image: undecided
+    def trunc(v):
+        pv = P(v)
+        if not pv.is_const():
+            raise Undecided("symbolic value stored into an integer array")
+        return int(pv.const_value())  # int(Fraction) truncates towards zero like the C cast
+
+    if obj.dtype.kind in "iu":
+        if isinstance(val, (Fraction, Poly)):
+            val = trunc(val)
+        elif isinstance(val, np.ndarray) and val.dtype == object:
+            out = np.empty(val.shape, dtype=int)
+            fo = out.reshape(-1)
+            for k, v in enumerate(val.reshape(-1)):
+                fo[k] = trunc(v)
+            val = out
+        elif isinstance(val, (list, tuple)):
+            val = array(val)
+            if val.dtype == object:
+                out = np.empty(val.shape, dtype=int)
+                fo = out.reshape(-1)
+                for k, v in enumerate(val.reshape(-1)):
+                    fo[k] = trunc(v)
+                val = out
+    else:
+        if isinstance(val, (Fraction, Poly)):
+            v = P(val).const_value()
+            val = bool(v != 0)
+        elif isinstance(val, np.ndarray) and val.dtype == object:
+            val = (val != 0)
     obj[idx] = val
 
 
@@ -338,6 +359,8 @@ def empty(shape, dtype=None, **kw):
 
 
 def full(shape, fill_value, dtype=None, **kw):
+    if fill_value is None:
+        return np.full(_shape(shape), None, dtype=object)  # an object array of None (placeholders)
     k = _kind_of(dtype)
     if k is None:
         k = "int" if isinstance(fill_value, (int, np.integer)) and not isinstance(fill_value, bool) else (
@@ -1481,6 +1504,8 @@ def native_getattr(it, obj, name):
             return m
         if not hasattr(obj, name):
             raise InterpRaise(AttributeError("'numpy.ndarray' object has no attribute %r" % name), it.where())
+        if type(obj) is not np.ndarray and type(obj).__module__.startswith("fverif") and name in getattr(obj, "__dict__", {}):
+            return getattr(obj, name)  # instance attribute of a checker-side ndarray subclass (e.g. the BasisArray stand-in)
         raise it.undecided("ndarray attribute %r" % name)
     if isinstance(obj, Poly):
         if name in ("shape",):
@@ -1970,6 +1995,26 @@ def _np_int(x=0):
     return _to_int(x)
 
 
+class ContractViolation(Exception):
+    """the analysed code calls a third-party function outside its documented precondition: the result is unspecified"""
+
+
+def _unique_contract(name):
+    inner = _wrap_generic(getattr(np, name), name)
+
+    def f(a, b, *args, **kw):
+        if kw.get("assume_unique"):
+            for arr, what in ((a, "first"), (b, "second")):
+                flat = np.asarray(arr).reshape(-1).tolist()
+                if len(set(map(str, flat))) != len(flat):
+                    raise Modelled(ContractViolation("numpy.%s(assume_unique=True) is called with a %s argument that has repeated elements: "
+                                                     "numpy leaves the result unspecified (the sort-based path gives wrong answers)" % (name, what)))
+        return inner(a, b, *args, **kw)
+
+    f.__name__ = name
+    return f
+
+
 def externals(it):
     from .interp import TypeMarker, T_FLOAT, T_INT, T_BOOL, Opaque
 
@@ -1977,6 +2022,9 @@ def externals(it):
     for name in _GENERIC:
         if hasattr(np, name):
             ns[name] = _wrap_generic(getattr(np, name), name)
+    for name in ("isin", "in1d", "setdiff1d", "intersect1d"):
+        if hasattr(np, name):
+            ns[name] = _unique_contract(name)
     for name in ("logical_and", "logical_or", "logical_xor", "add", "multiply", "subtract", "bitwise_and", "bitwise_or"):
         ns[name] = UFunc(name)
     ns.update(
